@@ -249,15 +249,19 @@ def formatter_skeletons(facts):
         if not any(m in p for m in FMT_MODULES) or it.get("body") is None or "::tests" in p or "::test" in p or it["defkind"] not in ("Fn", "AssocFn"):
             continue
         args = []
+        k_ = 0
         for q in it["params"]:
+            if q["k"] == "Binding" and q["name"] == "self":
+                args.append("fmt")
+                continue
+            k_ += 1
+            ty = (q.get("ty") or "")
             if q["k"] != "Binding":
                 args.append("$_")
-            elif q["name"] == "self":
-                args.append("fmt")
-            elif q["name"] in ("out", "s") and True:
+            elif q["name"] in ("out", "s") or "&mut std::string::String" in ty:
                 args.append("@sink")
             else:
-                args.append("$" + q["name"])
+                args.append("$%d" % k_)        # positional: binder independent
         try:
             sk = em.fn(p, args)
         except Unrecognised as u:
